@@ -110,8 +110,19 @@ def recv(w, ch="ev"):
     return {"s": "recv", "w": w, "ch": ch}
 
 
-def drain(w):
-    return {"s": "drain", "w": w}
+def drain(w, free=False, pause_us=0):
+    d = {"s": "drain", "w": w}
+    if free:
+        d["free"] = True
+        d["pause_us"] = pause_us
+    return d
+
+
+def fdrain(rnd, w):
+    """drain with a consumer pace drawn at random: at quiescence, or free-running with a pause per value"""
+    if rnd.random() < 0.5:
+        return drain(w)
+    return drain(w, True, rnd.choice([0, 0, 20, 100, 500]))
 
 
 def obs(w):
@@ -125,8 +136,8 @@ def new(w, cap):
     return d
 
 
-def epilogue(w, close=True):
-    st = [drain(w), call(w, "watchlist"), obs(w)]
+def epilogue(w, close=True, rnd=None):
+    st = [fdrain(rnd, w) if rnd else drain(w), call(w, "watchlist"), obs(w)]
     if close:
         st += [call(w, "close"), drain(w), obs(w), call(w, "add", (), "rel"), call(w, "remove", (), "rel"), call(w, "watchlist")]
     return st
@@ -260,12 +271,12 @@ def fam_rand(rnd, i, maxops=12, caps=(0, 0, 1, 2, 64, None), allow_dirs=True, re
         else:
             steps.append(obs(w))
         if pace == "immediate":
-            steps.append(drain(w))
+            steps.append(fdrain(rnd, w))
         elif pace == "delayed" and rnd.random() < 0.4:
             steps.append(recv(w))
         elif pace == "one":
             steps.append(recv(w))
-    steps += epilogue(w, close=rnd.random() < 0.7)
+    steps += epilogue(w, close=rnd.random() < 0.7, rnd=rnd)
     return steps
 
 
@@ -292,7 +303,28 @@ def fam_burst(rnd, i, ks=(2, 3, 17, 240, 700), big=False):
     if rnd.random() < 0.5:
         steps.append(recv(w))
         steps.append(obs(w))
-    steps += epilogue(w, close=rnd.random() < 0.3)
+    steps += epilogue(w, close=rnd.random() < 0.3, rnd=rnd)
+    return steps
+
+
+def fam_paced(rnd, i):
+    """Consumer paces: a small buffer, a burst with nobody reading, then a slow-but-steady free-running
+    consumer, so that slots free up while the reader is still inside one read batch."""
+    w = "w1"
+    cap = rnd.choice([1, 2, 4, 4, 16, 64])
+    steps = [fs("mkdir", ("d1",)), fs("mkdir", ("d2",)), fs("create", ("d1", "n1")), new(w, cap), call(w, "add", ("d1",), rnd.choice(SPELLINGS), rnd)]
+    if rnd.random() < 0.4:
+        steps.append(call(w, "add", ("d2",), "rel"))
+    pats = [
+        [fs("create", ("d1", "x%"))],
+        [fs("create", ("d1", "x%")), fs("write", ("d1", "x%"))],
+        [fs("create", ("d1", "x%")), fs("rename", ("d1", "x%"), to=("d1", "y%"))],
+        [fs("create", ("d1", "x%")), fs("rename", ("d1", "x%"), to=("d2", "y%")), fs("create", ("d1", "x%"))],
+        [fs("create", ("d1", "x%")), fs("chmod", ("d1", "x%")), fs("unlink", ("d1", "x%"))],
+    ]
+    steps.append({"s": "rep", "k": rnd.choice([40, 300, 1500]), "pat": rnd.choice(pats)})
+    steps.append(drain(w, True, rnd.choice([0, 10, 20, 50, 200])))
+    steps += [drain(w), call(w, "watchlist"), obs(w)]
     return steps
 
 
@@ -863,7 +895,7 @@ FAMS = {
     "rand": fam_rand, "burst": fam_burst, "lag": fam_lag, "close": fam_close, "wsrand": fam_watchset_random,
     "cycle": fam_cycle, "newclose": fam_newclose, "overflow": fam_overflow, "moves": fam_moves, "multi": fam_multi,
     "absorb": fam_absorb, "withops": fam_withops, "repoint": fam_repoint, "stall": fam_stall, "spell": fam_spell,
-    "endwatch": fam_endwatch,
+    "endwatch": fam_endwatch, "paced": fam_paced,
 }
 
 
